@@ -80,14 +80,19 @@ class Config:
         self._index = {(o.idx, o.sub): i for i, o in enumerate(self.objs)}
         return self
 
+    def _ix(self):
+        if getattr(self, "_index", None) is None or len(self._index) != len(self.objs):
+            self.finalize()
+        return self._index
+
     def index(self, idx, sub):
-        return self._index[(idx, sub)]
+        return self._ix()[(idx, sub)]
 
     def has(self, idx, sub):
-        return (idx, sub) in self._index
+        return (idx, sub) in self._ix()
 
     def get(self, idx, sub):
-        return self.objs[self._index[(idx, sub)]]
+        return self.objs[self._ix()[(idx, sub)]]
 
     def lines(self):
         self.finalize()
